@@ -106,25 +106,49 @@ Fixpoint kv_insert {A} (k : bytes) (x : A) (l : list (bytes * A)) : list (bytes 
 Definition kv_of_list {A} (l : list (bytes * A)) : list (bytes * A) :=
   fold_left (fun acc kx => kv_insert (fst kx) (snd kx) acc) l [].
 
+(* strictly increasing byte strings (bytes.Compare(a[i-1], a[i]) < 0) *)
+Fixpoint sorted_strict (l : list bytes) : bool :=
+  match l with
+  | [] => true
+  | a :: r => match r with [] => true | b :: _ => bytes_ltb a b end && sorted_strict r
+  end.
+
 (* ---- ValidatorIndex: a set of addresses (sync.Map keys), written sorted ------ *)
 Definition as_bytes (v : value) : option bytes :=
   match v with VBytes b => Some b | _ => None end.
+(* EncodeRLP: the keys of the map, sorted *)
 Definition set_norm (l : list value) : option (list value) :=
   match map_opt as_bytes l with
   | Some bs => Some (map (fun kx => VBytes (fst kx)) (kv_of_list (map (fun b => (b, tt)) bs)))
   | None => None
   end.
+(* DecodeRLP (since 8fe8f02): the list must be strictly increasing *)
+Definition set_dec (l : list value) : option (list value) :=
+  match map_opt as_bytes l with
+  | Some bs => if sorted_strict bs then Some l else None
+  | None => None
+  end.
 
 (* ---- EvidenceDoubleSign: map[common.Hash][]byte ------------------------------ *)
-(* common.BytesToHash / Hash.SetBytes: crop from the left, left-pad with zeros *)
-Definition bytes_to_hash (b : bytes) : bytes :=
-  let n := length b in
-  if Nat.leb n 32 then repeat 0 (32 - n) ++ b else skipn (n - 32) b.
+(* one entry; since 201ba78 DecodeRLP rejects a hash that is not 32 bytes *)
 Definition as_sign (v : value) : option (bytes * bytes) :=
-  match v with VList [VBytes h; VBytes s] => Some (bytes_to_hash h, s) | _ => None end.
+  match v with
+  | VList [VBytes h; VBytes s] => if len h =? 32 then Some (h, s) else None
+  | _ => None
+  end.
+Definition sign_value (kx : bytes * bytes) : value := VList [VBytes (fst kx); VBytes (snd kx)].
+(* EncodeRLP (since 201ba78): the entries of the map sorted by hash *)
 Definition signs_norm (l : list value) : option (list value) :=
   match map_opt as_sign l with
-  | Some kvs => Some (map (fun kx => VList [VBytes (fst kx); VBytes (snd kx)]) (kv_of_list kvs))
+  | Some kvs => Some (map sign_value (kv_of_list kvs))
+  | None => None
+  end.
+(* DecodeRLP: entries go into the map in any order, a repeated hash is rejected *)
+Definition signs_dec (l : list value) : option (list value) :=
+  match map_opt as_sign l with
+  | Some kvs =>
+    let m := kv_of_list kvs in
+    if len m =? len kvs then Some (map sign_value m) else None
   | None => None
   end.
 
@@ -175,15 +199,17 @@ Definition cdec (id : N) (w : value) : option value :=
     end
   else if id =? id_Validator then
     match w with
-    | VList [a; VNum e] => Some (VList [a; VBool (e =? 1)])   (* if r.Expelled == 1 *)
+    | VList [a; VNum e] =>
+      if 1 <? e then None                       (* since bcc4703: r.Expelled > 1 is an error *)
+      else Some (VList [a; VBool (e =? 1)])     (* if r.Expelled == 1 *)
     | _ => None
     end
   else if id =? id_ValidatorIndex then
-    match w with VList l => option_map VList (set_norm l) | _ => None end
+    match w with VList l => option_map VList (set_dec l) | _ => None end
   else if id =? id_EvidenceDoubleSign then
     match w with
     | VList [r; i; VList signs] =>
-      option_map (fun s => VList [r; i; VList s]) (signs_norm signs)
+      option_map (fun s => VList [r; i; VList s]) (signs_dec signs)
     | _ => None
     end
   else if (1 <=? id) && (id <=? 16) then Some w
@@ -202,8 +228,8 @@ Definition decode_stream_t (s : schema) (b : bytes) : option (value * bytes) :=
 Definition lenient_t := lenient cenc cdec.
 Definition good_t := good cenc cdec.
 
-(* schemas on which the decoder is strict: no rlp:"nil" pointer and none of
-   the three normalising custom decoders *)
+(* schemas on which the decoder is strict: no rlp:"nil" pointer and not the one
+   custom decoder that still normalises (EvidenceDoubleSign: entries in any order) *)
 Fixpoint strict (s : schema) : bool :=
   match s with
   | SList e | SPtr e => strict e
@@ -211,18 +237,8 @@ Fixpoint strict (s : schema) : bool :=
                      match fs with [] => true | f :: r => strict f && go r end) fs
   | SOpt _ => false
   | SCustom id w =>
-    negb ((id =? id_Validator) || (id =? id_ValidatorIndex) || (id =? id_EvidenceDoubleSign))
-    && strict w
+    negb (id =? id_EvidenceDoubleSign) && strict w
   | _ => true
-  end.
-
-Fixpoint has_custom (id : N) (s : schema) : bool :=
-  match s with
-  | SList e | SPtr e | SOpt e => has_custom id e
-  | SStruct fs => (fix go (fs : list schema) : bool :=
-                     match fs with [] => false | f :: r => has_custom id f || go r end) fs
-  | SCustom i w => (i =? id) || has_custom id w
-  | _ => false
   end.
 
 (* ---- correspondence runner ---------------------------------------------------- *)
@@ -258,10 +274,7 @@ Definition case_ok (t : table) (c : case) : bool :=
     match lookup t ty with
     | None => false
     | Some s =>
-      (* EvidenceDoubleSign is written in map iteration order: only the value
-         read back is compared *)
-      (if has_custom id_EvidenceDoubleSign s then true
-       else opt_bytes_eqb (encode_t s v) (Some b))
+      opt_bytes_eqb (encode_t s v) (Some b)
       (* rt = the implementation read the same value back from b *)
       && Bool.eqb rt (opt_value_eqb (decode_t s b) (Some v))
     end
@@ -271,10 +284,7 @@ Definition case_ok (t : table) (c : case) : bool :=
     | Some s =>
       match decode_t s b, r with
       | None, None => true
-      | Some v, Some b' =>
-        if has_custom id_EvidenceDoubleSign s
-        then opt_value_eqb (decode_t s b') (Some v)
-        else opt_bytes_eqb (encode_t s v) (Some b')
+      | Some v, Some b' => opt_bytes_eqb (encode_t s v) (Some b')
       | _, _ => false
       end
     end
@@ -291,10 +301,7 @@ Definition case_ok (t : table) (c : case) : bool :=
       match decode_stream_t s b, r with
       | None, None => true
       | Some (v, rest), Some (b', n) =>
-        (len rest =? n) &&
-        if has_custom id_EvidenceDoubleSign s
-        then opt_value_eqb (decode_t s b') (Some v)
-        else opt_bytes_eqb (encode_t s v) (Some b')
+        (len rest =? n) && opt_bytes_eqb (encode_t s v) (Some b')
       | _, _ => false
       end
     end
